@@ -63,7 +63,7 @@ def gen_bool_operand(rng, shape, rep=None):
             'mrep': rep}
 
 
-HIST_MODES = ['setitem', 'iand', 'ior', 'ixor', 'iadd', 'isub', 'imul']
+HIST_MODES = ['sibling', 'sibling', 'setitem', 'iand', 'ior', 'ixor', 'iadd', 'isub', 'imul']
 _ALT = {'iand': 'iadd', 'ior': 'isub', 'ixor': 'imul', 'iadd': 'iand', 'isub': 'ior', 'imul': 'ixor', 'itruediv': 'ixor'}
 
 
